@@ -173,6 +173,33 @@ def main():
             while depth() > 0:
                 _shape_storage.memo_stack.pop()
             out.append({"trace": " ".join(ev) + " | depth=%d sig=%s" % (leaked, sig), "oracle": orac, "end": end, "start": start})
+        # recursion that opens a context block at every level until the interpreter's recursion limit is hit, the RecursionError caught at
+        # the top (several alignments of the stack): afterwards no context may be left open
+        import sys as _sys
+        rec_probe = []
+
+        def rec(d):
+            with jaxtyped("context"):
+                isinstance(np.zeros((1,), "float32"), Float[A, "size"])
+                rec(d + 1)
+
+        def padded(k):
+            return rec(0) if k == 0 else padded(k - 1)
+        old_limit = _sys.getrecursionlimit()
+        _sys.setrecursionlimit(400)
+        try:
+            for pad in range(6):
+                try:
+                    padded(pad)
+                except RecursionError:
+                    pass
+                rec_probe.append(list(snapshot()))
+                while depth() > 0:
+                    _shape_storage.memo_stack.pop()
+        finally:
+            _sys.setrecursionlimit(old_limit)
+        if out:
+            out[0]["recursion_probe"] = rec_probe
     print(json.dumps(out))
 
 
